@@ -34,7 +34,7 @@ func genC14(t *rapid.T) C14Scn {
 			default:
 				op.K = rapid.SampledFrom([]string{"upd", "basic", "basic", "load"}).Draw(t, "k")
 				op.State = rapid.IntRange(0, 2).Draw(t, "state")
-				op.Det = rapid.IntRange(0, 1).Draw(t, "det")
+				op.Det = rapid.SampledFrom([]int{0, 1, 4}).Draw(t, "det") // two texts and the empty one
 				op.Size = rapid.IntRange(0, 1).Draw(t, "size")
 			}
 			op.Pause = rapid.SampledFrom([]int{0, 0, 1, 2, 3}).Draw(t, "pause")
